@@ -93,3 +93,40 @@ fn c18_from_single_object() {
 	std::mem::forget(b);
 	std::mem::forget(schema);
 }
+
+// @harness props=C18,C11 tier=quick timeout=1200
+// @bound schema `null` (zero-byte datum: the message is exactly the 10-byte header), every fingerprint, every input of length 0..=12: Ok iff the input starts with C3 01 || fingerprint; slice and reader (every refill size) agree
+#[kani::proof]
+#[kani::unwind(14)]
+#[kani::stub(alloc::fmt::format, crate::verif::stub_format)]
+fn c18_from_single_object_null() {
+	let fp: [u8; 8] = kani::any();
+	let mut storage = [SchemaNode::Null];
+	let schema = long_schema(&mut storage, fp);
+	let data: [u8; 12] = kani::any();
+	let len: usize = kani::any();
+	kani::assume(len <= 12);
+	let s = &data[..len];
+	let chunk: usize = kani::any();
+	kani::assume(chunk >= 1 && chunk <= 12);
+	let header_ok = len >= 10
+		&& data[0] == 0xC3
+		&& data[1] == 0x01
+		&& data[2] == fp[0]
+		&& data[3] == fp[1]
+		&& data[4] == fp[2]
+		&& data[5] == fp[3]
+		&& data[6] == fp[4]
+		&& data[7] == fp[5]
+		&& data[8] == fp[6]
+		&& data[9] == fp[7];
+	let a = from_single_object_slice::<()>(s, &schema);
+	let b = from_single_object_reader::<_, ()>(Chunked::new(s, chunk), &schema);
+	kani::cover!(a.is_ok() && len == 10);
+	kani::cover!(a.is_err() && len == 10);
+	assert!(a.is_ok() == header_ok, "c18_null: slice decode must succeed exactly when marker and fingerprint match");
+	assert!(a.is_ok() == b.is_ok(), "c18_null: slice and reader disagree on Ok/Err");
+	std::mem::forget(a);
+	std::mem::forget(b);
+	std::mem::forget(schema);
+}
